@@ -242,7 +242,8 @@ func vfRunRRIcpt(t *testing.T, sc *vfRRScript, out *vfWriter) {
 			out.Emit(vfM{"a": "bind", "s": st.S, "rate": st.Rate})
 		case "unbind":
 			if b := streams[st.S]; b != nil {
-				ic.UnbindRemoteStream(b.info)
+				unb := *b.info // an equal description at another address
+				ic.UnbindRemoteStream(&unb)
 				delete(streams, st.S)
 			}
 			out.Emit(vfM{"a": "unbind", "s": st.S})
